@@ -4,11 +4,12 @@ output buffers so that endFrame / the seek-table writer resume mid-way, maxFrame
 the Lean model Seekable.load: accessors at indices 0..n+1 and offsetToFrameIndex at boundary positions must agree, (3) read through
 memory / FILE* / callback access at random, sequential, backwards, boundary-straddling, zero-length and end-of-content ranges: every
 read must return exactly those bytes; (4) corrupted archives in the ASan+UBSan build: error or checksum-detected, never a crash."""
+import os
 import build, zv, frames, datagen
 
 ASSUMPTIONS = ["reads with offset+length beyond the content are outside the property's quantifier (they are clamped by the reader); only verdicts are compared on corrupted archives",
                "the seek-table WRITER is tied through `tbl` (what the real writer emitted is parsed by the model loader and must describe the real frame layout), not by a byte-for-byte serializer comparison"]
-SRC = ["zvh_seek.c", "/repo/contrib/seekable_format/zstdseek_compress.c", "/repo/contrib/seekable_format/zstdseek_decompress.c"]
+SRC = ["zvh_seek.c", os.path.join(build.REPO, "contrib/seekable_format/zstdseek_compress.c"), os.path.join(build.REPO, "contrib/seekable_format/zstdseek_decompress.c")]
 
 
 def correspondence(ctx):
